@@ -1,2 +1,65 @@
-def check(ctx, prog):
-    return
+"""C03 (dispatch part): what one `process_message` iteration does with the item the select returned (L1 of lifetrace.py)"""
+import z3
+
+import lifetrace as lt
+import lifeprops as lp
+from values import *
+
+
+def check(ctx, prog, runtime='ActorRuntime'):
+    I1, a1, pm = lt.explore_process_message(prog, runtime, 1)
+    ctx.absorb(I1)
+    b = prog.find_fn('%s::<TActor>::process_message' % runtime)
+    ctx.encoded(prog, b)
+    seen = set()
+    for k, r in enumerate(pm):
+        if r['klass'] is None:
+            continue
+        st = r['state']
+        name = 'dispatch.path%d' % k
+        first = r['recvs'][0][1] if r['recvs'] else None
+        starts = [e[2] for e in r['cbs'] if e[1] == 'start']
+        kind, cb = r['klass']
+        claims = {}
+        if first == 'sigq':
+            claims['signal_kills_without_starting_a_callback'] = kind == 'killed' and not starts
+        elif first == 'stopq':
+            reason = r.get('loop_result', {}).get('exit_reason')
+            okr = isinstance(reason, Enum) and (reason.variant == 'None' or (isinstance(reason.fields[0], Opaque) and reason.fields[0].ident == 'the-stop-reason'))
+            claims['stop_exits_gracefully_with_the_sent_reason'] = kind == 'stop' and not starts and okr
+        elif first == 'supq':
+            claims['supervision_event_goes_to_its_handler_once'] = starts == ['handle_supervisor_evt'] and kind in ('continue', 'err', 'panic', 'killed')
+        elif first == 'msgq':
+            if kind == 'stop':
+                reason = r['loop_result']['exit_reason']
+                claims['drain_marker_stops_with_reason_drained'] = (not starts and isinstance(reason, Enum) and reason.variant == 'Some' and isinstance(reason.fields[0], Str)
+                                                                    and reason.fields[0].s == 'Drained')
+            else:
+                claims['message_goes_to_handle_at_most_once'] = starts in ([], ['handle']) and kind in ('continue', 'err', 'panic', 'killed')
+                if not starts:
+                    seen.add('undecodable_message_dropped_or_failed')
+        else:
+            claims['closed_ports_are_treated_as_kill'] = kind == 'killed' and not starts
+        # immediate kill: once the signal was received nothing of a callback is polled any more
+        tr = st.trace
+        si = next((i for i, e in enumerate(tr) if e[0] == 'RECV' and e[1] == 'sigq'), None)
+        if si is not None:
+            claims['nothing_polled_after_the_kill_signal'] = not any(e[0] == 'CB' and e[1] in ('poll', 'start') for e in tr[si + 1:])
+            if any(e[0] == 'CB' and e[1] == 'cancelled' for e in tr):
+                seen.add('running_handler_cancelled_by_kill')
+        seen.add('first:%s' % first)
+        lp.record(ctx, name, st, claims, 'C03.dispatch', sample={'selected_port': first, 'class': r['klass'], 'callbacks': starts},
+                  on_cex=lambda m, r=r: replay(r))
+    for w in ('first:sigq', 'first:stopq', 'first:supq', 'first:msgq', 'first:None', 'running_handler_cancelled_by_kill', 'undecodable_message_dropped_or_failed'):
+        ctx.note_witness('C03.dispatch.' + w, w in seen)
+
+
+def replay(r):
+    import life_replay
+    # one iteration embedded in a minimal life: start-up ok, then this iteration
+    pre = [('CB', 'start', 'pre_start', 1), ('CB', 'end', 'pre_start', 1, 'ok'), ('START_OK',), ('CB', 'start', 'post_start', 2), ('CB', 'end', 'post_start', 2, 'ok')]
+    tr = pre + [e for e in r['state'].trace if e[0] == 'CB' and e[1] in ('start', 'end', 'cancelled')]
+    kind = r['klass'][0]
+    if kind in ('stop', 'killed', 'err', 'panic'):
+        tr.append(('LOOPEXIT', kind))
+    return life_replay.replay_trace('dispatch', tr, 'C03')
